@@ -463,9 +463,11 @@ func runCase(c *kit.Check, stream string, idx int, withNull bool, anchor time.Ti
 	cr := &caseRun{c: c, idx: idx, stream: stream,
 		issued:      map[string]map[string]string{"change": {}, "task": {}, "lane": {}, "notice": {}},
 		sinceReload: map[string]int{}, idsAfter: map[string]int{}, wopts: map[string]*op{},
-		g: &gen{rnd: rnd, nopts: map[string]*op{}, withNul: withNull}}
-	// the virtual clock is anchored at the real now: notices/warnings expiry
-	// is judged by snapd against the real clock
+		g: &gen{rnd: rnd, nopts: map[string]*op{}, withNul: withNull, real: anchor.Add(-24 * time.Hour)}}
+	cr.g.now = func() time.Time { return cr.clock }
+	// the virtual clock is anchored at the real now + 24h: notices/warnings
+	// expiry and pending warnings are judged by snapd against the real clock,
+	// and every generated time stays hours away from it
 	cr.clock = anchor.Add(time.Duration(rnd.Intn(3600)) * time.Second)
 	state.MockTime(cr.clock)
 
@@ -529,6 +531,7 @@ func runCase(c *kit.Check, stream string, idx int, withNull bool, anchor time.Ti
 	c.Count("roundtripped.tasks", cr.ds.tasks)
 	c.Count("roundtripped.notices", cr.ds.notices)
 	c.Count("roundtripped.warnings", cr.ds.warnings)
+	c.Count("roundtripped.pending_warnings", cr.ds.pendingWarnings)
 	c.Count("roundtripped.tasks_in_wait_status", cr.ds.waitTasks)
 	c.Count("roundtripped.tasks_with_full_log", cr.ds.longLogs)
 	c.Count("roundtripped.tasks_with_at_time", cr.ds.atTimes)
@@ -563,7 +566,7 @@ func TestVerifC05(t *testing.T) {
 	defer c.Done(t)
 	defer state.MockTime(time.Now())() // leaves timeNow = time.Now
 	c.Rule("seeded random histories of exported state operations (NewChange/NewTask/NewLane, task sets with WaitFor edges and lanes, AddTask, JoinLane, Set/Clear of generated JSON values on state/changes/tasks, Task.SetStatus with every status, SetToWait with every waited status, Change.SetStatus, SetProgress, Logf/Errorf up to 14 lines, At, AddNotice with users/data/repeat-after/explicit times, AddWarning/Warnf/OkayWarnings/RemoveWarning, Prune by count, SetClean, Abort/AbortLanes, intermediate checkpoints; a quarter of the cases start with a change really executed by a TaskRunner) with 2-3 reload points; at each reload the payload captured by the Backend is read back, dumped through exported accessors and compared, reloaded a second time, and the history continues in lockstep on the live and on the reloaded state. Non-trivial: change, task, lane and notice ids were all handed out both before the first reload and after every reload; distinct = the full operation sequence.")
-	c.Assume("generated notices are at most 3 days and warnings at most 10 days old with respect to the real clock (the virtual clock is anchored at the real now and only moves forward), so none expires; Prune's time limits are out of reach, only its count limit removes changes")
+	c.Assume("generated notices are at most 3 days and warnings at most 10 days old with respect to the real clock (the virtual clock is anchored at the real now + 24h and only moves forward), so none expires; explicit warning times and OkayWarnings cut-offs are >= 3h away from the real clock so PendingWarnings/WarningsSummary do not depend on when they are asked; Prune's time limits are out of reach, only its count limit removes changes")
 	c.Assume("a change that is (cached-)ready is never driven back to unready (the state engine panics on that transition) and tasks are only cleaned in ready changes; WaitFor edges stay inside one change and are acyclic")
 	c.Assume("Change.IsReady is compared only when the live change's cached readiness agrees with its status (documented: never-marked-ready changes report false live, true after unmarshal); Task.WaitedStatus of a task not in WaitStatus may be Default live and the documented default Done after reload")
 	c.Floor("reloads", 100)
@@ -580,7 +583,7 @@ func TestVerifC05(t *testing.T) {
 	c.Floor("roundtripped.wait_edges", 50)
 	c.Floor("legacy_payloads", 10)
 
-	anchor := time.Now()
+	anchor := time.Now().Add(24 * time.Hour)
 	only := kit.OnlyCase()
 	n := kit.Scale(600, 5000)
 	for i := 0; i < n; i++ {
